@@ -31,7 +31,7 @@ PROPERTY = "C08"
 LEVEL = "exploration"
 QUICK_N = 48
 SCENARIO_TIMEOUT = 420
-PROBES = ["fresh_interpreter_ok", "schedules_compared", "permutations_compared", "protein_level", "sklearn_learner",
+PROBES = ["fresh_interpreter_ok", "schedules_compared", "permutations_compared", "protein_level", "sklearn_learner", "default_model",
           "order_sensitive_learner", "multi_file", "parquet", "subsampled", "subset_proteins_in_fasta",
           "switches>0", "folds4_all_24_perms"]
 RULE = (
@@ -52,7 +52,8 @@ ASSUMPTIONS = [
 ]
 REAL = ["mokapot.read_pin", "mokapot.brew", "mokapot.assign_confidence", "mokapot.read_fasta", "mokapot.picked_protein",
         "scikit-learn learners", "pandas", "pyarrow", "triqler", "a second CPython interpreter per scenario"]
-STUBS = ["joblib.Parallel -> vsim.sched.SimParallel", "estimator -> RecordingLDA/OrderLDA in most runs"]
+STUBS = ["joblib.Parallel -> vsim.sched.SimParallel", "estimator -> RecordingLDA/OrderLDA in most runs",
+         "np.random.default_rng(None) -> seeded from the simulator's entropy stream (unseeded generators are a seam)"]
 
 
 def make_scenario(seed):
@@ -65,9 +66,16 @@ def make_scenario(seed):
     dp["size_factors"] = [1.0] * dp["n_files"]
     while folds > 2 and per_file / folds < 45:
         folds -= 1
-    learner = rng.choices(["olda", "rlda", "svc", "perc"], weights=[50, 15, 20, 15])[0]
+    learner = rng.choices(["olda", "rlda", "svc", "perc", "default"], weights=[45, 12, 15, 13, 15])[0]
+    if learner == "default":
+        # brew(model=None, rng=seed): the default model's train_fdr of 0.01 needs a larger, well separated data set
+        dp.update(n_files=1, n_spectra=rng.randint(700, 900), shift=3.0, frac_correct=0.6, max_per_spectrum=2,
+                  n_features=rng.randint(4, 5), size_factors=None)
+        per_file = int(dp["n_spectra"] * 1.5)
+        folds = 3
     cfg = {
-        "learner": learner, "folds": folds, "test_fdr": rng.choice([0.2113, 0.3071]), "train_fdr": 0.2113,
+        "learner": learner, "folds": folds, "test_fdr": 0.0531 if learner == "default" else rng.choice([0.2113, 0.3071]),
+        "train_fdr": 0.2113,
         "max_iter": rng.choice([1, 2]), "seed": rng.randint(0, 10**6),
         "subset_max_train": None if rng.random() < 0.7 else rng.randint(60, per_file),
         "max_workers": 1, "confidence": True, "override": True,
@@ -156,6 +164,7 @@ def child_main():
     pool.warm_up()
     random.seed(1)
     np.random.seed(1)
+    world.seed_entropy(f"fresh|{scn.get('seed')}")
     wd = scn["_workdir"]
     res = execute(scn, wd, "fresh")
     out = {"digests": _digests(res), "hashseed": os.environ.get("PYTHONHASHSEED"), "error": res.error}
@@ -180,6 +189,7 @@ def _component(keys):
 def run_scenario(scn, workdir):
     probes = {
         "sklearn_learner": int(scn["cfg"]["learner"] in ("svc", "perc")),
+        "default_model": int(scn["cfg"]["learner"] == "default"),
         "order_sensitive_learner": int(scn["cfg"]["learner"] == "olda"),
         "multi_file": int(scn["data"]["n_files"] > 1),
         "parquet": int(scn["format"] == "parquet"),
